@@ -1,0 +1,400 @@
+//go:build verif
+
+package main
+
+// Verification hook (add-only, compiled only with -tags verif): a case-file driven driver that applies the
+// unexported table-cropping routines of this command to table boxes built from textual run-length tables.
+//
+//	C10_CASES=<case file> C10_OUT=<result file> go test -tags verif -run TestVerifDriver ./cmd/mp4ff-crop
+//
+// Case line:   id \t op \t arg \t (stts \t ctts \t stsc \t stsz \t offsets \t stss \t sdtp)+
+// Result line: id \t token token ...
+
+import (
+	"bufio"
+	"bytes"
+	"encoding/binary"
+	"fmt"
+	"os"
+	"strconv"
+	"strings"
+	"testing"
+
+	"github.com/Eyevinn/mp4ff/bits"
+	"github.com/Eyevinn/mp4ff/mp4"
+)
+
+func vU32s(s string) []uint32 {
+	if s == "-" || s == "" {
+		return nil
+	}
+	var out []uint32
+	for _, f := range strings.Split(s, ",") {
+		v, err := strconv.ParseUint(f, 10, 32)
+		if err != nil {
+			panic("bad u32 list " + s)
+		}
+		out = append(out, uint32(v))
+	}
+	return out
+}
+
+func vU64s(s string) []uint64 {
+	if s == "-" || s == "" {
+		return nil
+	}
+	var out []uint64
+	for _, f := range strings.Split(s, ",") {
+		v, err := strconv.ParseUint(f, 10, 64)
+		if err != nil {
+			panic("bad u64 list " + s)
+		}
+		out = append(out, v)
+	}
+	return out
+}
+
+func vI32s(s string) []int32 {
+	if s == "-" || s == "" {
+		return nil
+	}
+	var out []int32
+	for _, f := range strings.Split(s, ",") {
+		v, err := strconv.ParseInt(f, 10, 32)
+		if err != nil {
+			panic("bad i32 list " + s)
+		}
+		out = append(out, int32(v))
+	}
+	return out
+}
+
+func vJoinU32(xs []uint32) string {
+	if len(xs) == 0 {
+		return "-"
+	}
+	ss := make([]string, len(xs))
+	for i, x := range xs {
+		ss[i] = strconv.FormatUint(uint64(x), 10)
+	}
+	return strings.Join(ss, ",")
+}
+
+func vExact32(xs []uint32) []uint32 { // cap == len, so that reslicing cannot hide in spare capacity
+	c := make([]uint32, len(xs), len(xs))
+	copy(c, xs)
+	return c
+}
+
+func vFullBox(version byte, words []uint32) []byte {
+	b := make([]byte, 4+4*len(words))
+	b[0] = version
+	for i, w := range words {
+		binary.BigEndian.PutUint32(b[4+4*i:], w)
+	}
+	return b
+}
+
+// vBuildStbl builds the table boxes from the 7 textual fields.
+func vBuildStbl(f []string) (*mp4.StblBox, error) {
+	stbl := mp4.NewStblBox()
+	p := strings.Split(f[0], ";")
+	stbl.AddChild(&mp4.SttsBox{SampleCount: vExact32(vU32s(p[0])), SampleTimeDelta: vExact32(vU32s(p[1]))})
+	if f[1] != "N" {
+		p = strings.Split(f[1], ";")
+		counts, offs := vU32s(p[1]), vI32s(p[2])
+		if p[0] == "A" {
+			c := &mp4.CttsBox{}
+			if err := c.AddSampleCountsAndOffset(counts, offs); err != nil {
+				return nil, err
+			}
+			c.EndSampleNr = vExact32(c.EndSampleNr)
+			stbl.AddChild(c)
+		} else {
+			w := []uint32{uint32(len(counts))}
+			for i := range counts {
+				w = append(w, counts[i], uint32(offs[i]))
+			}
+			body := vFullBox(0, w)
+			bx, err := mp4.DecodeCttsSR(mp4.BoxHeader{Name: "ctts", Size: uint64(8 + len(body)), Hdrlen: 8}, 0,
+				bits.NewFixedSliceReader(body))
+			if err != nil {
+				return nil, err
+			}
+			stbl.AddChild(bx)
+		}
+	}
+	if f[5] != "N" {
+		stbl.AddChild(&mp4.StssBox{SampleNumber: vExact32(vU32s(strings.TrimPrefix(f[5], "Y;")))})
+	}
+	if f[6] != "N" {
+		bs := vU32s(strings.TrimPrefix(f[6], "Y;"))
+		es := make([]mp4.SdtpEntry, len(bs))
+		for i, b := range bs {
+			es[i] = mp4.SdtpEntry(b)
+		}
+		stbl.AddChild(&mp4.SdtpBox{Entries: es})
+	}
+	p = strings.Split(f[2], ";")
+	var raw [][3]uint32
+	if p[1] != "-" {
+		for _, e := range strings.Split(p[1], ",") {
+			q := vU32s(strings.ReplaceAll(e, ":", ","))
+			raw = append(raw, [3]uint32{q[0], q[1], q[2]})
+		}
+	}
+	if p[0] == "A" {
+		sc := &mp4.StscBox{}
+		for _, e := range raw {
+			if err := sc.AddEntry(e[0], e[1], e[2]); err != nil {
+				return nil, err
+			}
+		}
+		stbl.AddChild(sc)
+	} else {
+		w := []uint32{uint32(len(raw))}
+		for _, e := range raw {
+			w = append(w, e[0], e[1], e[2])
+		}
+		body := vFullBox(0, w)
+		bx, err := mp4.DecodeStscSR(mp4.BoxHeader{Name: "stsc", Size: uint64(8 + len(body)), Hdrlen: 8}, 0,
+			bits.NewFixedSliceReader(body))
+		if err != nil {
+			return nil, err
+		}
+		stbl.AddChild(bx)
+	}
+	p = strings.Split(f[3], ";")
+	u, _ := strconv.ParseUint(p[0], 10, 32)
+	n, _ := strconv.ParseUint(p[1], 10, 32)
+	stbl.AddChild(&mp4.StszBox{SampleUniformSize: uint32(u), SampleNumber: uint32(n), SampleSize: vExact32(vU32s(p[2]))})
+	p = strings.Split(f[4], ";")
+	switch p[0] {
+	case "S":
+		o := vU64s(p[1])
+		o32 := make([]uint32, len(o))
+		for i, x := range o {
+			o32[i] = uint32(x)
+		}
+		stbl.AddChild(&mp4.StcoBox{ChunkOffset: o32})
+	case "C":
+		stbl.AddChild(&mp4.Co64Box{ChunkOffset: vU64s(p[1])})
+	}
+	return stbl, nil
+}
+
+func vTrak(id uint32, timescale uint32, handler string, stbl *mp4.StblBox) *mp4.TrakBox {
+	return &mp4.TrakBox{
+		Tkhd: &mp4.TkhdBox{TrackID: id},
+		Mdia: &mp4.MdiaBox{
+			Mdhd: &mp4.MdhdBox{Timescale: timescale},
+			Hdlr: &mp4.HdlrBox{HandlerType: handler},
+			Minf: &mp4.MinfBox{Stbl: stbl},
+		},
+	}
+}
+
+func vTry(f func()) (panicked bool) {
+	defer func() {
+		if r := recover(); r != nil {
+			panicked = true
+		}
+	}()
+	f()
+	return false
+}
+
+func vStscString(b *mp4.StscBox) string {
+	es := make([]string, len(b.Entries))
+	for i, e := range b.Entries {
+		es[i] = fmt.Sprintf("%d:%d:%d", e.FirstChunk, e.SamplesPerChunk, e.FirstSampleNr)
+	}
+	single := uint32(0)
+	if vTry(func() { single = b.GetSampleDescriptionID(0) }) {
+		single = 0
+	}
+	enc := "encpanic"
+	vTry(func() {
+		var buf bytes.Buffer
+		if err := b.Encode(&buf); err != nil {
+			enc = "encerr"
+			return
+		}
+		body := buf.Bytes()[16:]
+		var xs []string
+		for i := 0; i+12 <= len(body); i += 12 {
+			xs = append(xs, fmt.Sprintf("%d:%d:%d", binary.BigEndian.Uint32(body[i:]),
+				binary.BigEndian.Uint32(body[i+4:]), binary.BigEndian.Uint32(body[i+8:])))
+		}
+		enc = strings.Join(xs, ",")
+		if enc == "" {
+			enc = "-"
+		}
+	})
+	e := strings.Join(es, ",")
+	if e == "" {
+		e = "-"
+	}
+	return fmt.Sprintf("%s;%d;%s;%s", e, single, vJoinU32(b.SampleDescriptionID), enc)
+}
+
+func vCrop(stbl *mp4.StblBox, k uint32) string {
+	var toks []string
+	add := func(name string, f func() string) {
+		res := "panic"
+		vTry(func() { res = f() })
+		toks = append(toks, name+"="+res)
+	}
+	add("stts", func() string {
+		cropStts(stbl.Stts, k)
+		return vJoinU32(stbl.Stts.SampleCount) + ";" + vJoinU32(stbl.Stts.SampleTimeDelta)
+	})
+	if stbl.Ctts != nil {
+		add("ctts", func() string {
+			cropCtts(stbl.Ctts, k)
+			offs := make([]string, len(stbl.Ctts.SampleOffset))
+			for i, o := range stbl.Ctts.SampleOffset {
+				offs[i] = strconv.Itoa(int(o))
+			}
+			o := strings.Join(offs, ",")
+			if o == "" {
+				o = "-"
+			}
+			return vJoinU32(stbl.Ctts.EndSampleNr) + ";" + o
+		})
+	}
+	add("stsc", func() string {
+		if err := cropStsc(stbl.Stsc, k); err != nil {
+			return "err"
+		}
+		return vStscString(stbl.Stsc)
+	})
+	add("stsz", func() string {
+		cropStsz(stbl.Stsz, k)
+		return fmt.Sprintf("%d;%d;%s", stbl.Stsz.SampleUniformSize, stbl.Stsz.SampleNumber, vJoinU32(stbl.Stsz.SampleSize))
+	})
+	if stbl.Stss != nil {
+		add("stss", func() string { cropStss(stbl.Stss, k); return vJoinU32(stbl.Stss.SampleNumber) })
+	}
+	if stbl.Sdtp != nil {
+		add("sdtp", func() string {
+			cropSdtp(stbl.Sdtp, k)
+			xs := make([]uint32, len(stbl.Sdtp.Entries))
+			for i, e := range stbl.Sdtp.Entries {
+				xs[i] = uint32(e)
+			}
+			return vJoinU32(xs)
+		})
+	}
+	return strings.Join(toks, " ")
+}
+
+func vRunCase(f []string) string {
+	op, arg := f[1], f[2]
+	tabs := f[3:]
+	if len(tabs)%7 != 0 || len(tabs) == 0 {
+		return "badcase"
+	}
+	var stbls []*mp4.StblBox
+	for i := 0; i < len(tabs); i += 7 {
+		s, err := vBuildStbl(tabs[i : i+7])
+		if err != nil {
+			return "build=err"
+		}
+		stbls = append(stbls, s)
+	}
+	a := strings.Split(arg, ":")
+	num := func(i int) uint64 { v, _ := strconv.ParseUint(a[i], 10, 64); return v }
+	switch op {
+	case "crop":
+		return vCrop(stbls[0], uint32(num(0)))
+	case "endtime": // arg = timescale:ms:handler
+		moov := &mp4.MoovBox{Traks: []*mp4.TrakBox{vTrak(1, uint32(num(0)), a[2], stbls[0])}}
+		res := "panic"
+		vTry(func() {
+			et, ets, err := findEndTime(moov, int(num(1)))
+			if err != nil {
+				res = "err"
+			} else {
+				res = fmt.Sprintf("ok/%d/%d", et, ets)
+			}
+		})
+		return "endtime=" + res
+	case "ends": // arg = timescale:endTime:endTimescale
+		traks := []*mp4.TrakBox{vTrak(1, uint32(num(0)), "vide", stbls[0])}
+		res := "panic"
+		vTry(func() {
+			tos, err := findTrakEnds(traks, num(1), num(2))
+			if err != nil {
+				res = "err"
+			} else {
+				to := tos[1]
+				res = fmt.Sprintf("ok/%d/%d/%d.%d.%d", to.lastSampleNr, to.endTime, to.lastChunk.ChunkNr,
+					to.lastChunk.StartSampleNr, to.lastChunk.NrSamples)
+			}
+		})
+		return "ends=" + res
+	case "fill": // arg = k1:k2:... (last sample number per track)
+		var traks []*mp4.TrakBox
+		tos := map[uint32]*trakOut{}
+		res := "panic"
+		vTry(func() {
+			for i, s := range stbls {
+				id := uint32(i + 1)
+				traks = append(traks, vTrak(id, 1000, "vide", s))
+				k := uint32(num(i))
+				chunkNr, _, _ := s.Stsc.ChunkNrFromSampleNr(int(k))
+				tos[id] = &trakOut{nextInChunkNr: 1, lastSampleNr: k, lastChunk: s.Stsc.GetChunk(uint32(chunkNr))}
+			}
+			brs := createByteRanges()
+			first, err := fillTrakOutsAndByteRanges(traks, tos, brs)
+			if err != nil {
+				res = "err"
+				return
+			}
+			var parts []string
+			for i := range stbls {
+				os := make([]string, len(tos[uint32(i+1)].chunkOffsets))
+				for j, o := range tos[uint32(i+1)].chunkOffsets {
+					os[j] = strconv.FormatUint(o, 10)
+				}
+				parts = append(parts, strings.Join(os, ","))
+			}
+			var rs []string
+			for _, r := range brs.ranges {
+				rs = append(rs, fmt.Sprintf("%d-%d", r.start, r.end))
+			}
+			res = fmt.Sprintf("ok/%d/%s/%s", first, strings.Join(parts, "|"), strings.Join(rs, ","))
+		})
+		return "fill=" + res
+	}
+	return "badop"
+}
+
+func TestVerifDriver(t *testing.T) {
+	in, out := os.Getenv("C10_CASES"), os.Getenv("C10_OUT")
+	if in == "" || out == "" {
+		t.Skip("C10_CASES / C10_OUT not set")
+	}
+	fh, err := os.Open(in)
+	if err != nil {
+		t.Fatal(err)
+	}
+	defer fh.Close()
+	oh, err := os.Create(out)
+	if err != nil {
+		t.Fatal(err)
+	}
+	defer oh.Close()
+	w := bufio.NewWriterSize(oh, 1<<20)
+	defer w.Flush()
+	sc := bufio.NewScanner(fh)
+	sc.Buffer(make([]byte, 1<<20), 1<<26)
+	for sc.Scan() {
+		f := strings.Split(sc.Text(), "\t")
+		if len(f) < 10 {
+			continue
+		}
+		fmt.Fprintf(w, "%s\t%s\n", f[0], vRunCase(f))
+	}
+}
